@@ -136,7 +136,7 @@ class ConcCtx:
         self.nchecks += 1
         assert isinstance(cond, (bool, int)), cond
         if not cond:
-            raise Violation(msg, role, self.values)
+            raise Violation(msg, role() if callable(role) else role, self.values)
 
     def cover(self, label):
         self.covers.add(label)
